@@ -280,7 +280,10 @@ def schema_plan(ctx, props, presets, trace=False):
                               "real RSForm and validated event by event by Trace_Schema (content, Analysis, SchemaInv)." if trace else "")
     ctx.constants = {}
     for pr in presets:
-        cfg = "Gen_Schema_%s%s.cfg" % ("q" if ctx.quick else "t", pr)
+        # "9@q": this preset keeps its quick bound in the thorough tier too (it is run at the thorough bound by another check)
+        keep_quick = pr.endswith("@q")
+        pr = pr[:-2] if keep_quick else pr
+        cfg = "Gen_Schema_%s%s.cfg" % ("q" if (ctx.quick or keep_quick) else "t", pr)
         ctx.constants[cfg] = open(os.path.join(vcore.TLA, cfg)).read().split("SPECIFICATION")[0].split()
         ctx.replay("Gen_Schema.tla", cfg, h, ["--props", ",".join(props)], tag=cfg[:-4], timeout=3400 if ctx.quick else 9000, xss="64m", xmx="12g")
     ctx.exhaustive = True
@@ -454,7 +457,9 @@ def plan_C11(ctx):
 
 def plan_C10(ctx):
     ctx.assumptions = ["known findings K2 (cyclic term references) and K3 (non-contiguous interpretation keys) are reported as KNOWN-FINDING"]
-    schema_plan(ctx, ["C10"], ["9", "7b", "7t", "8"])
+    # the 'ids' and 'names' presets at the thorough bound are 9 M histories each (an hour of replay apiece): for C10 they keep the
+    # quick bound in both tiers; the thorough tier deepens 'kinds', 'texts', the model presets and the value encoding instead
+    schema_plan(ctx, ["C10"], ["9@q", "7b", "7t", "8@q"])
     ctx.rule = SCHEMA_RULE + " Models: " + MODEL_RULE
     model_stage(ctx, ["C10"], presets=("", "s", "ls"))
     # values of any typification are stored in the document in the compact encoding: its round trip (Gen_C16's typifications x values)
